@@ -439,15 +439,15 @@ fn fragment_precedence_cases(tier: &str) -> Vec<XCase> {
             Entry::Derive => "#[derive(Ex)]\n#[derive_ex(Default)]".to_string(),
         };
         // the fragment at the top level of the value, inside a call, inside a block, inside an array
-        let item = "pub struct X { #[default($e * 2)] pub a: u8, #[default(10 - $e)] pub b: u8, #[default(-($e) as i8)] pub c: i8, #[default(wrap($e * 2))] pub d: u8, #[default({ 10 - $e })] pub e: u8, #[default([$e * 2, 0][0])] pub f: u8 }";
-        let code = format!("use derive_ex::{{derive_ex, Ex}};\nfn wrap(x: u8) -> u8 {{ x }}\nmacro_rules! mk {{ ($e:expr) => {{ #[derive(Debug)]\n{head}\n{item}\nfn direct() -> X {{ X {{ a: $e * 2, b: 10 - $e, c: -($e) as i8, d: wrap($e * 2), e: {{ 10 - $e }}, f: [$e * 2, 0][0] }} }} }} }}\nmk!(1 + 2);\npub fn run() -> String {{ format!(\"{{:?}}|{{:?}}\", <X as ::core::default::Default>::default(), direct()) }}\n");
+        let item = "pub struct X { #[default($e * 2)] pub a: u8, #[default(10 - $e)] pub b: u8, #[default(-($e) as i8)] pub c: i8, #[default(wrap($e * 2))] pub d: u8, #[default({ 10 - $e })] pub e: u8, #[default([$e * 2, 0][0])] pub f: u8, pub g: [u8; $e * 2], #[default(\"ab\")] pub h: W<[u8; $e * 2]> }";
+        let code = format!("use derive_ex::{{derive_ex, Ex}};\nfn wrap(x: u8) -> u8 {{ x }}\n#[derive(Debug)] pub struct W<A>(pub A);\nimpl<const K: usize> ::core::convert::From<&str> for W<[u8; K]> {{ fn from(s: &str) -> Self {{ W([s.len() as u8; K]) }} }}\nmacro_rules! mk {{ ($e:expr) => {{ #[derive(Debug)]\n{head}\n{item}\nfn direct() -> X {{ X {{ a: $e * 2, b: 10 - $e, c: -($e) as i8, d: wrap($e * 2), e: {{ 10 - $e }}, f: [$e * 2, 0][0], g: [0; $e * 2], h: W([2; $e * 2]) }} }} }} }}\nmk!(1 + 2);\npub fn run() -> String {{ format!(\"{{:?}}|{{:?}}\", <X as ::core::default::Default>::default(), direct()) }}\n");
         let mut atoms = BTreeSet::new();
         atoms.insert(format!("entry={}", entry.name()));
         atoms.insert("expr=around-an-expr-fragment".to_string());
         v.push(XCase {
             text: format!("{} {} [$e = 1 + 2]", entry.name(), item),
             code,
-            expected: "X { a: 6, b: 7, c: -3, d: 6, e: 7, f: 6 }|X { a: 6, b: 7, c: -3, d: 6, e: 7, f: 6 }".to_string(),
+            expected: "X { a: 6, b: 7, c: -3, d: 6, e: 7, f: 6, g: [0, 0, 0, 0, 0, 0], h: W([2, 2, 2, 2, 2, 2]) }|X { a: 6, b: 7, c: -3, d: 6, e: 7, f: 6, g: [0, 0, 0, 0, 0, 0], h: W([2, 2, 2, 2, 2, 2]) }".to_string(),
             atoms,
             nontrivial: true,
             detail: json!({"gen": "fragment-precedence", "tier": tier, "entry": entry.name(), "item": item}),
